@@ -186,7 +186,7 @@ prop("C09", run="^TestC09", level="exploration",
      technique="stateful model-based property testing (rapid state machines + exhaustive history enumeration) with hook-point schedule generation", design="DESIGN.md 4 C09, 3.9")
 
 prop("C15", run="^TestC15", level="exploration",
-     quick=(16, 60, 900), thorough=(16, 3000, 7200),
+     quick=(16, 200, 900), thorough=(16, 5000, 7200),
      rule="sessions: topology {library client <-> library server, library client <-> raw server peer, raw client peer <-> library server} x version {2,3,4,5,DSE1,DSE2} x compression {none, LZ4, Snappy except v5} x auth on/off x 1..4 post-handshake exchanges of generated version-valid request/response frames "
           "(up to ~330 KiB towards the library; what the library itself sends in v5 kept under one segment) x id discipline (all managed / distinct caller-chosen) x pipelining (all requests first, responses batched by the raw peer into one self-contained segment) x raw-peer segmentations (split of one envelope into 1..4+ segments at generated points, first part >= 9 bytes; LZ4-compressed or fallback segments). "
           "Raw peers use only the reference encoders/decoders and record wire conformance (handshake unframed, valid CRCs, envelopes inside segments not individually compressed, v5 envelopes not individually compressed). Oracle: frames received == frames sent (canonical equality) in both directions; bytes seen by the raw peer == reference encoding of the frame sent. "
@@ -195,3 +195,13 @@ prop("C15", run="^TestC15", level="exploration",
      text="Randomised end-to-end exploration over real sockets with an independent raw peer on either side; worker-isolated.",
      note="Trusted: the raw peer (rawpeer_test.go) built on harness/ref; 10 s bounds on every blocking step only turn a missing delivery into a failure.",
      technique="property-based testing (rapid) of socket sessions against an independent spec-derived raw peer; subprocess isolation", design="DESIGN.md 4 C15")
+
+prop("C10", run="^TestC10", level="exploration",
+     quick=(8, 120, 900), thorough=(16, 5000, 7200),
+     rule="shim level: ALL answer orders for k=1..5 outstanding requests (153 orders, each with a spurious response in the middle); rapid-generated interleavings for k<=12 with multi-page answers of 1..MaxPending pages (complete or cut short) and spurious responses, consumers reading after all deliveries. "
+          "Socket level (worker-isolated): library client x raw server peer, every version incl. v5 segments x compression, k<=10 tagged requests from 1..4 concurrent senders, answered in a generated order interleaved with EVENT envelopes (stream id -1) and responses for an unused stream id, responses batched into few segments or sent one by one, multi-page answers on DSE versions. "
+          "Oracle: per request exactly its tagged frames in arrival order, channel closed after the last page with Err()==nil; events on the event channel and through handlers, in order, nothing else there; unknown-id responses change nothing. Non-trivial = >=2 outstanding requests or multi-page / interleaved extras; distinct by (k, pages, order) / session spec",
+     assumptions=["multi-page answers never exceed MaxPending undelivered pages (beyond that the request is failed by design)"],
+     text="Exhaustive small permutations plus randomised interleavings against a per-request expected-sequence oracle, at handler level and over real sockets.",
+     note="Trusted: the raw peer and the tag scheme (tag carried in the response message content).",
+     technique="property-based testing (rapid) + exhaustive permutation enumeration with a per-request delivery-sequence oracle", design="DESIGN.md 4 C10")
